@@ -13,8 +13,13 @@ var authOpts = world.ConsumerGenOpts{ChainIDs: []string{"consa-1", "consb-2", "c
 
 // authStep samples message type x sender class x consumer phase.
 func authStep(t *rapid.T, w *world.World) world.Action {
+	if len(w.Agenda) > 0 {
+		a := w.Agenda[0]
+		w.Agenda = w.Agenda[1:]
+		return a
+	}
 	ncons := len(w.ConsumerIDs())
-	weights := map[string]int{"block": 10, "staking": 2, "create": 4, "update": 10, "vmsg": 10, "remove": 4, "push": 0, "authority": 4, "owner-to-gov": 2}
+	weights := map[string]int{"block": 10, "staking": 2, "create": 4, "update": 10, "vmsg": 10, "remove": 4, "push": 0, "authority": 4, "owner-to-gov": 2, "topn-journey": 2}
 	if ncons == 0 {
 		weights["create"] = 30
 	}
@@ -63,6 +68,49 @@ func authStep(t *rapid.T, w *world.World) world.Action {
 					spec.Shaping = &world.ShapingSpec{TopN: 80} // owner and Top-N in one message: must be rejected
 				}
 				return world.Action{Kind: world.KUpdateConsumer, Sender: owner, Consumer: id, Spec: spec}
+			}
+		}
+	case "topn-journey":
+		// a consumer is handed to governance, governance makes it Top-N, then governance hands it back to a user,
+		// with or without clearing Top-N in the same proposal (without: must be rejected)
+		ids := w.ConsumersInPhase(world.PhReg, world.PhInit, world.PhLaunched)
+		if len(ids) > 0 && !w.Busy(world.GovProposer) {
+			id := rapid.SampledFrom(ids).Draw(t, "jid")
+			co := w.ObserveConsumer(id)
+			owner := w.OwnerName(co.Owner)
+			user := rapid.SampledFrom([]string{"alice", "bob", "carol"}).Draw(t, "juser")
+			wait := func(n int) {
+				for i := 0; i < n; i++ {
+					w.Agenda = append(w.Agenda, world.Action{Kind: world.KBlock, Dt: 5e9})
+				}
+			}
+			back := &world.ConsumerSpec{NewOwner: user}
+			if rapid.Bool().Draw(t, "jclear") {
+				back.Shaping = &world.ShapingSpec{TopN: 0, PowerCap: 30}
+			}
+			setTopN := world.Action{Kind: world.KUpdateConsumer, Sender: "gov", Consumer: id, Spec: &world.ConsumerSpec{Shaping: &world.ShapingSpec{TopN: uint32(rapid.SampledFrom([]int{50, 67, 100}).Draw(t, "jtopn"))}}}
+			handBack := world.Action{Kind: world.KUpdateConsumer, Sender: "gov", Consumer: id, Spec: back}
+			switch {
+			case owner == "gov" && co.Shaping.Top_N > 0:
+				w.Agenda = append(w.Agenda, handBack)
+				wait(4)
+			case owner == "gov":
+				w.Agenda = append(w.Agenda, setTopN)
+				wait(4)
+				w.Agenda = append(w.Agenda, handBack)
+				wait(4)
+			case owner != "" && !w.Busy(owner):
+				w.Agenda = append(w.Agenda, world.Action{Kind: world.KUpdateConsumer, Sender: owner, Consumer: id, Spec: &world.ConsumerSpec{NewOwner: "gov"}})
+				wait(2)
+				w.Agenda = append(w.Agenda, setTopN)
+				wait(4)
+				w.Agenda = append(w.Agenda, handBack)
+				wait(4)
+			}
+			if len(w.Agenda) > 0 {
+				a := w.Agenda[0]
+				w.Agenda = w.Agenda[1:]
+				return a
 			}
 		}
 	case "authority":
